@@ -137,6 +137,20 @@ func (g *Gen) paramOp(st *State) Ev {
 			p.RefundDelay = g.in(2, 3, 4, p.RefundDelay+2)
 		}
 	}
+	if g.chance(0.15) { // a proposal the module's validators have to refuse
+		switch g.R.Intn(5) {
+		case 0:
+			p.Slash = g.in(-1, 1001, 1500)
+		case 1:
+			p.Tax = g.in(-1, 1000, 1200)
+		case 2:
+			p.MaxTimeout = g.in(0, -1)
+		case 3:
+			p.Multiple = g.in(0, -2)
+		default:
+			p.RefundDelay = 1 // (one of the two periods is then zero)
+		}
+	}
 	return Ev{Name: "SetParams", RParams: &p}
 }
 
